@@ -4,6 +4,7 @@ import (
 	"fmt"
 	"math/rand"
 	"sort"
+	"sync"
 
 	"github.com/consensys/gnark/frontend"
 	"github.com/consensys/gnark/test"
@@ -256,6 +257,38 @@ func runC04(o *cli.Opts, run *evid.Run) {
 			}
 		}
 	})
+	// circuits using the gadget defined at the same time (both domains, several lengths, engine and compiler)
+	{
+		var wg sync.WaitGroup
+		for g := 0; g < 8; g++ {
+			g := g
+			wg.Add(1)
+			go func() {
+				defer wg.Done()
+				defer func() {
+					if p := recover(); p != nil {
+						run.Violate(fmt.Sprintf("C04/concurrent-define/%d/panic", g), fmt.Sprintf("defining Keccak circuits concurrently panics: %v", p), nil)
+					}
+				}()
+				r := gen.RNG(o.Seed, fmt.Sprint("C04/concurrent-define/", g))
+				for it := 0; it < o.Pick(6, 40); it++ {
+					key := fmt.Sprintf("C04/concurrent-define/%d/%d", g, it)
+					if !run.Wants(key) {
+						continue
+					}
+					n := []int{0, 1, 72, 132, 135, 136, 164, 200}[(g+it)%8]
+					sha3 := (g+it/2)%2 == 1
+					msg := c04Content(r, "random", n)
+					err := test.IsSolved(&KeccakCircuit{In: vars(8 * n), SHA3: sha3}, &KeccakCircuit{In: bitsLSB(msg), Out: bits256(digest(sha3, msg)), SHA3: sha3}, rmon.BN254)
+					if err != nil {
+						run.Violate(key, fmt.Sprintf("%s gadget defined while other Keccak circuits are being defined rejects the standard digest of a %d-byte message: %s", domName(sha3), n, trim(err)), nil)
+					}
+					run.Case("concurrent-define/"+domName(sha3), true, key, err == nil, map[string]any{"goroutine": g, "length": n})
+				}
+			}()
+		}
+		wg.Wait()
+	}
 	run.Require("length residues mod 136 covered", len(residues), 136)
 	run.Require("compiled lengths", len(compiled), 6)
 }
